@@ -17,7 +17,7 @@ ASSUMPTIONS = ['item credits are arbitrary reals in [0,1] ("full") or in (0,1) (
 BOUNDS = {'quick': 'assignment-solver inductive steps 1 and 6 (n<=3, arbitrary pre-state); 4 inputs with one symbolic palette row; n<=2 full credits, n=3 interior credits; 2 alternative answer lists n=2 interior; grouped/nested layouts of 4 inputs (2 groups x 2) interior',
           'thorough': 'n<=3 full, n=4 interior (path budget), 2 alternative lists n=2 full / n=3 interior, nested 2x2 full, grouping 3 groups'}
 OUTSIDE = ['IEEE rounding of credit sums', 'n beyond the bounds', 'more than 2 alternative answer lists']
-DEADLINE = {'quick': 150, 'thorough': 2400}
+DEADLINE = {'quick': 600, 'thorough': 2400}
 FUNCS = ['ListGrader.__call__/check/perform_check/get_ordered_input_list/get_best_result', 'listgrader.find_optimal_order',
          'ListGrader.groupify_list/ungroupify_list', 'munkres.Munkres.compute', 'ItemGrader.check', 'AbstractGrader.__call__']
 STUBS = ['TableGrader (author-defined ItemGrader returning table credit)', 'listgrader.np.zeros -> object array (get_best_result only)']
